@@ -102,6 +102,11 @@ func vCrashPut(kind cache.EntryKind, mode casblob.CompressionType, maxSteps int,
 	}
 	if gerr != nil || rc == nil {
 		vsym.Reach("absent-after-restart")
+		// the unreadable leftover is dropped, so that the interrupted upload
+		// can simply be repeated (Contains / FindMissing no longer report it)
+		if _, el := c2.lru.Get(cache.LookupKey(kind, vHashA)); el != nil {
+			vsym.Assert(req >= 0 && el.Value.(*entry).value.size != req, "crash/C08-unreadable-leftover-stays-indexed")
+		}
 		return
 	}
 	vsym.Reach("served-after-restart")
